@@ -119,10 +119,11 @@ class UARTTransport(CPXTransport):
         self._serial = None
 
     def writePacket(self, packet):
-        self._lock.acquire()
         data = packet.wireData
         if len(data) > 100:
-            raise 'Packet too large!'
+            # refuse before taking the lock: it is only released by the peer's clear-to-send
+            raise ValueError('Packet too large!')
+        self._lock.acquire()
 
         buff = bytearray([0xFF, len(data)])
         buff.extend(data)
